@@ -73,6 +73,7 @@ type Node struct {
 	lock            sync.Mutex
 	untrustedLock   sync.Mutex
 	blockLock       sync.Mutex
+	txStateLock     sync.Mutex // Held while a stored tx state is fetched, modified, saved and sent.
 
 	txFetcher     TxFetcher
 	outputFetcher OutputFetcher
@@ -1027,19 +1028,26 @@ func (node *Node) checkTxDelays(ctx context.Context) {
 		}
 
 		for _, txid := range txids {
+			// A conflicting tx or a block can be processed at the same time. Without the lock the
+			// unsafe or cancelled state they save can be overwritten and safe sent after it.
+			node.txStateLock.Lock()
+
 			txState, err := internalStorage.FetchTxState(ctx, node.store, txid)
 			if err != nil {
+				node.txStateLock.Unlock()
 				logger.Error(ctx, "SpyNodeFailed fetch tx state : %s", err)
 				continue
 			}
 
 			if txState.State.UnSafe || txState.State.Cancelled {
+				node.txStateLock.Unlock()
 				continue
 			}
 
 			txState.State.Safe = true
 
 			if err := internalStorage.SaveTxState(ctx, node.store, txState); err != nil {
+				node.txStateLock.Unlock()
 				logger.Error(ctx, "SpyNodeFailed save tx state : %s", err)
 				continue
 			}
@@ -1052,6 +1060,7 @@ func (node *Node) checkTxDelays(ctx context.Context) {
 			for _, handler := range node.handlers {
 				handler.HandleTxUpdate(ctx, update)
 			}
+			node.txStateLock.Unlock()
 		}
 	}
 }
